@@ -121,7 +121,28 @@ func ruleClientReport(c *Ctx, a *udpAnchors) {
 	p := c.P
 	f := a.loopFn
 	var reports []*ssa.Call
+	inFamily := map[*ssa.Function]bool{}
 	for _, g := range eng.Family(f) {
+		inFamily[g] = true
+	}
+	// the loop function, its closures, and the small helpers of the package they call (reportClientPacket(assoc, err, n, m))
+	scan := append([]*ssa.Function{}, eng.Family(f)...)
+	helperSite := map[*ssa.Function][]*ssa.Call{}
+	for _, g := range eng.Family(f) {
+		for _, cl := range eng.Calls(g) {
+			call, ok := cl.(*ssa.Call)
+			if !ok {
+				continue
+			}
+			if h := call.Call.StaticCallee(); h != nil && p.InRepo(h) && len(h.Blocks) > 0 && !inFamily[h] && eng.PkgPathOf(h) == eng.PkgPathOf(f) {
+				if len(helperSite[h]) == 0 {
+					scan = append(scan, h)
+				}
+				helperSite[h] = append(helperSite[h], call)
+			}
+		}
+	}
+	for _, g := range scan {
 		for _, cl := range eng.Calls(g) {
 			if call, ok := cl.(*ssa.Call); ok && eng.MethodName(&call.Call) == "AddPacketFromClient" {
 				reports = append(reports, call)
@@ -135,12 +156,18 @@ func ruleClientReport(c *Ctx, a *udpAnchors) {
 	r := reports[0]
 	rf := r.Parent()
 	key := short(rf)
-	// in the loop, once per iteration
-	loops := eng.Loops(rf)
-	l := eng.InnermostLoop(loops, r.Block())
-	c.CheckAt("CLIENT", key+":inside-the-datagram-loop", r, l != nil && rf == f, "the client packet report is not made in the datagram loop itself (once per datagram, also when handling failed)")
+	// in the loop, once per iteration; when the report sits in a helper, the helper's (single) call in the loop stands for it
+	var at ssa.Instruction = r
+	if !inFamily[rf] {
+		if sites := helperSite[rf]; len(sites) == 1 {
+			at = sites[0]
+		}
+	}
+	loops := eng.Loops(at.Parent())
+	l := eng.InnermostLoop(loops, at.Block())
+	c.CheckAt("CLIENT", key+":inside-the-datagram-loop", r, l != nil && at.Parent() == f, "the client packet report is not made in the datagram loop itself (once per datagram, also when handling failed)")
 	if l != nil {
-		isR := func(ins ssa.Instruction) bool { return ins == ssa.Instruction(r) }
+		isR := func(ins ssa.Instruction) bool { return ins == at }
 		_, mx, _ := eng.CountOnPaths(eng.Point{B: l.Header}, isR, func(ins ssa.Instruction) bool {
 			// stop when control returns to the header
 			return false
